@@ -239,6 +239,7 @@ structure OPhase where
   objs : List PObj            -- spec.objects
   conds : List Cond           -- status.conditions
   controllerOf : List CRef    -- status.controllerOf
+  finOrphan : Bool := false   -- (S1B) "orphan" finalizer: the phase object is being deleted with orphan propagation
   deriving DecidableEq, Repr, Inhabited
 
 /-- A write on an ObjectSetPhase object. -/
@@ -267,11 +268,16 @@ structure World where
   gw : Nat := 0
   crashAt : Option Nat := none
   snap : Option (Store × (String → Option OPhase)) := none
+  -- GHOST (sys stream, refused writes): one entry per write request of the pass, in order: how many
+  -- writes on managed objects (`writes`) and on phase objects (`phaseEvents`) had been issued
+  -- before it.  Never read by the model (only by `Pko.Drv.SysCommon.refusedStep`).
+  ticks : List (Nat × Nat) := []
 
 /-- GHOST: called once per write request PKO issues, right before it. -/
 def World.tick (w : World) : World :=
   { w with gw := w.gw + 1,
-           snap := if w.crashAt = some w.gw && w.snap.isNone then some (w.store, w.phases) else w.snap }
+           snap := if w.crashAt = some w.gw && w.snap.isNone then some (w.store, w.phases) else w.snap,
+           ticks := w.ticks ++ [(w.writes, w.phaseEvents.length)] }
 
 /-- Run the third-party operations scheduled before the next PKO write. -/
 def World.beforeWrite (w : World) : World :=
